@@ -126,7 +126,8 @@ def job_llk(job):
     r = Result()
     payload = {"kind": "job", "job": job}
     letters = read_alphabet(A)
-    haps = list(itertools.product(*[range(a) for a in A]))
+    # haplotypes over *all* tensor slots: alleles >= n_alleles[j] are zero-probability non-alleles
+    haps = list(itertools.product(*[range(MAXA) for a in A])) if len(A) <= 2 else list(itertools.product(*[range(a) for a in A]))
     hap_arr = np.array(haps, np.int8)
     gens = ref.multisets(range(len(haps)), P)
     garrs = [np.array([haps[i] for i in g], np.int8).reshape(P, len(A)) for g in gens]
@@ -212,12 +213,13 @@ def job_sym(job):
                         v1, cache = log_likelihood_cached(R, ga, C, cache)  # miss then hits
                         v2, _ = log_likelihood_cached(R, ga, C, None)
                         v3 = log_likelihood_alleles_cached(R, C, hap_arr, np.array(go), ccache)
-                        # pedigree: padded rows with zero count must be ignored
-                        Rp = np.concatenate([R, np.full((2,) + R.shape[1:], 0.5)])
-                        Cp = np.concatenate([C, [0, 0]])
+                        # pedigree: rows with zero count (trailing padding, but also leading / interleaved) must be ignored
+                        Rp = np.concatenate([np.full((1,) + R.shape[1:], 0.25), R[:1], np.full((1,) + R.shape[1:], 0.5), R[1:], np.full((2,) + R.shape[1:], 0.5)])
+                        Cp = np.concatenate([[0], C[:1], [0], C[1:], [0, 0]])
                         v4 = ped_cached(Rp, Cp, hap_arr, 1, np.array(sorted(go)), pcache)
                         v5 = ped_cached(Rp, Cp, hap_arr, 1, np.array(sorted(go)), None)
-                        for nm, v in (("py_func", py), ("cached", v1), ("cached-none", v2), ("call-cached", v3), ("ped-cached", v4), ("ped-nocache", v5)):
+                        v6 = ped_cached(Rp, Cp, hap_arr, 1, np.array(sorted(go)), pcache)  # hit
+                        for nm, v in (("py_func", py), ("cached", v1), ("cached-none", v2), ("call-cached", v3), ("ped-cached", v4), ("ped-nocache", v5), ("ped-cache-hit", v6)):
                             r.evaluations += 1
                             if not close(float(v), want):
                                 r.violation("llk-variant|%s|%s|letter=%d|g=%s" % (tag, nm, i, go),
